@@ -192,9 +192,9 @@ def oracle_no_panic(line, impl, model_kv, impl_kv=None, model=None):
 
 PROPS = {
     "C01": dict(
-        suites=["exec-matrix", "exec-memops", "exec-random", "exec-long"], oracle=oracle_no_panic, level="proof", model_is_spec=True, case_suffix=" spec=isa",
+        suites=["exec-matrix", "exec-memops", "exec-random", "exec-long", "exec-calls"], oracle=oracle_no_panic, level="proof", model_is_spec=True, case_suffix=" spec=isa",
         nontrivial=lambda line, impl: impl.split()[0] in ("ok",) or impl.startswith("err"),
-        rule="suites exec-matrix + exec-memops + exec-random + exec-long: every ALU / byte-swap / jump opcode x all (dst,src) register pairs x boundary operand values (V64 x V64 for register forms, "
+        rule="suites exec-matrix + exec-memops + exec-random + exec-long + exec-calls (call chains of depth 0..9 incl. exactly the nesting limit): every ALU / byte-swap / jump opcode x all (dst,src) register pairs x boundary operand values (V64 x V64 for register forms, "
              "V64 x I32 for immediate forms, shift counts 31..65, i64::MIN, upper halves set), taken/not-taken x forward/backward for every conditional jump, lddw for every register, "
              "all load/store/xadd/ldabs/ldind widths x registers x offsets, random structured programs with loops, stack traffic, helpers, local calls, calculators, and programs of 33,000 and 66,000 "
              "(thorough: 140,000 and 999,999) instructions with maximal forward/backward jumps and wide loads across the 2^15/2^16 boundaries. Each case is compared with the interpreter model AND with the ISA "
